@@ -143,7 +143,8 @@ def events_of_block(P, f, bi, groups):
     if p in P.fns and p.startswith('parser::') and 'kw::' not in p:
         consts = ['%d=%s' % (i_ + 1, mode_key(a)) for i_, a in enumerate(args) if mode_key(a) is not None]
         bufs = [buffer_of(f, a, groups) for a in args if buffer_of(f, a, groups) != '?'][:1]
-        return [('call', bufs[0] if bufs else '?', cidn(p), ','.join(consts))]
+        tga = [tok_name(g_) for g_ in ga if not g_.startswith("'")]
+        return [('call', bufs[0] if bufs else '?', cidn(p) + ('<%s>' % ';'.join(tga) if tga else ''), ','.join(consts))]
     if re.search(r'Vec::<T, A>::push$', p) and len(args) == 2:
         ty = re.sub(r"'\w+ ?", '', t['args'][0].get('place', {}).get('ty', '')).replace('&mut ', '').replace('grammar::', '').replace('std::vec::', '')
         return [('push', ty, cons(args[1], f))]
@@ -385,7 +386,41 @@ def extract(P):
         ps = [re.sub(r'optparse\((\w+),([^()]*(?:\([^()]*\))?[^()]*)\) ((?:(?!optparse|yes|no)\S+ )*?)yes', r'peek(\1,\2) yes parse(\1,\2) \3', p_) for p_ in ps]
         ps = [re.sub(r'optparse\((\w+),([^()]*(?:\([^()]*\))?[^()]*)\) ((?:(?!optparse|yes|no)\S+ )*?)no', r'peek(\1,\2) no \3', p_) for p_ in ps]
         out[cidn(f.id)] = sorted(set(re.sub(r' +', ' ', p_).strip() for p_ in ps))
-    return specialise(out)
+    return specialise(separated_lists(out))
+
+
+def separated_lists(g):
+    """a generic helper that parses `T (SEP T)* SEP?` until its buffer is empty — by hand, with a loop — is syn's
+    parse_terminated: calls of it are written as the `terminated` event, the helper itself disappears"""
+    found = {}
+    for name, paths in g.items():
+        ps = set(paths)
+        m = None
+        for p_ in ps:
+            m = m or re.fullmatch(r'is_empty\(in\) no parse\(in,(\w+)\) push\(Vec<\1>,parse<\1>\) is_empty\(in\) no parse\(in,(T![A-Za-z]+)\) NEXT-ITERATION', p_)
+        if not m:
+            continue
+        T_, sep = m.group(1), m.group(2)
+        vec = r'RETURN\(Ok\{0:(?:var:)?Vec<%s>\[?Vec::new\(\)\]?\}\)' % T_
+        want = [r'is_empty\(in\) no parse\(in,%s\) push\(Vec<%s>,parse<%s>\) is_empty\(in\) no parse\(in,%s\) NEXT-ITERATION' % (T_, T_, T_, re.escape(sep)),
+                r'is_empty\(in\) no parse\(in,%s\) push\(Vec<%s>,parse<%s>\) is_empty\(in\) yes %s' % (T_, T_, T_, vec),
+                r'is_empty\(in\) yes %s' % vec]
+        if len(ps) == 3 and all(any(re.fullmatch(w, p_) for p_ in ps) for w in want):
+            found[name] = sep
+    if not found:
+        return g
+    out = {}
+    for name, paths in g.items():
+        if name in found:
+            continue
+        np_ = []
+        for p_ in paths:
+            for h, sep in found.items():
+                p_ = re.sub(r'call\((\w+),' + re.escape(h) + r'<([^<>;]*)>,\)', lambda m_: 'terminated(%s,parser::<impl syn:parse::Parse for %s>::parse,%s)' % (m_.group(1), m_.group(2), sep), p_)
+                p_ = re.sub(re.escape(short(h)) + r'\(\)', 'terminated(parser::parse)', p_)
+            np_.append(p_)
+        out[name] = sorted(set(np_))
+    return out
 
 
 def canon_groups(p_):
